@@ -3002,9 +3002,9 @@ class Entity(MutableMapping[str, str]):
                     raise ValueError('The worldspawn entity must remain worldspawn!')
                 self.map.by_class['worldspawn'].add(self)
         elif key_fold == 'targetname':
-            _remove_copyset(self.map.by_target, orig_val, self)
+            _remove_copyset(self.map.by_target, (orig_val or '').casefold() or None, self)
             if self in self.map.entities:
-                self.map.by_target[str_val].add(self)
+                self.map.by_target[str_val.casefold() or None].add(self)
         elif key_fold == 'nodeid':
             try:
                 node_id = int(orig_val)  # type: ignore  # Using as a cast
